@@ -603,10 +603,9 @@ void SoPlex_getRowVectorRational(void* soplex, int i, int* nnonzeros, long* indi
 #else
    SoPlex* so = (SoPlex*)(soplex);
    LPRowRational lprow;
-   SVectorRational row;
 
    so->getRowRational(i, lprow);
-   row = lprow.rowVector();
+   const SVectorRational& row = lprow.rowVector();
 
    *nnonzeros = row.size();
 
